@@ -880,6 +880,42 @@ pub fn run(ctx: &mut Ctx) {
         |ch: &Vec<u16>| lines_json(&MacroGen { ch, pos: 0 }.program()),
         check_record,
     );
+    // ---- a name redefined with another kind or another number of parameters, with and without #undef in between: the
+    // definition in force is the last one above the site
+    {
+        const OBJ: [&str; 3] = ["1", "( 7 )", "q r"];
+        const FUN: [&str; 3] = ["( a + a )", "[ a ]", "a"];
+        let make = |i: u64| {
+            let (o, f, seq, site) = (OBJ[(i % 3) as usize], FUN[((i / 3) % 3) as usize], (i / 9) % 6, (i / 54) % 2);
+            let obj = format!("#define A {}\n", o);
+            let fun = format!("#define A(a) {}\n", f);
+            let fun2 = "#define A(a, b) a b\n".to_string();
+            let undef = "#undef A\n".to_string();
+            // (definitions, is the last definition function-like with one parameter / with two / object-like)
+            let (defs, last): (String, u8) = match seq {
+                0 => (format!("{}{}", obj, fun), 1),
+                1 => (format!("{}{}", fun, obj), 0),
+                2 => (format!("{}{}{}", obj, undef, fun), 1),
+                3 => (format!("{}{}{}", fun, undef, obj), 0),
+                4 => (format!("{}{}{}", obj, fun, obj), 0),
+                _ => (format!("{}{}", fun, fun2), 2),
+            };
+            let sites = match (last, site) {
+                (1, 0) => "x A ( 2 ) ; A ( A ( 3 ) ) ;\n",
+                (1, _) => "A ; y A ( z ) + A ( 4 ) ;\n",
+                (2, 0) => "x A ( 2 , 3 ) ;\n",
+                (2, _) => "A ; A ( A ( 1 , 2 ) , 5 ) ;\n",
+                (_, 0) => "x A ; A ( 3 ) ;\n",
+                _ => "A + A ; ( A ) ;\n",
+            };
+            // a site between the definitions sees the earlier one
+            let first_site = if seq == 1 || seq == 3 || seq == 5 { "A ( 9 ) ;\n" } else { "A ;\n" };
+            let first_len = defs.find('\n').map(|k| k + 1).unwrap_or(0);
+            let text = format!("{}{}{}{}", &defs[..first_len], first_site, &defs[first_len..], sites);
+            json!({"kind": "macros", "text": text})
+        };
+        ctx.run_enum("redefinitions_of_another_kind", 108, true, make, |i| check_record(&make(i)));
+    }
     ctx.run_prop(
         "include_graphs_vs_pasting",
         ctx.tier.pick(10_000, 200_000),
